@@ -263,6 +263,34 @@ def run_tlc(spec: str, cfg: str | None = None, *, cfg_text: str | None = None,
         shutil.rmtree(scratch, ignore_errors=True)
 
 
+def run_apalache(spec: str, *, init: str, inv: str, length: int, next_: str = 'Next',
+                 timeout: float = 900) -> TlcResult:
+    """Bounded symbolic check with Apalache (used for inductive invariants: init=IndInit, length=1)."""
+    scratch = _scratch()
+    try:
+        cmd = ['apalache-mc', 'check', f'--init={init}', f'--next={next_}', f'--inv={inv}',
+               f'--length={length}', f'--out-dir={scratch}/out', f'--run-dir={scratch}/run',
+               os.path.join(SPEC_DIR, f'{spec}.tla')]
+        penv = dict(os.environ)
+        penv.pop('JAVA_TOOL_OPTIONS', None)
+        t0 = time.time()
+        try:
+            p = subprocess.run(cmd, cwd=scratch, env=penv, capture_output=True, text=True, timeout=timeout)
+        except subprocess.TimeoutExpired as err:
+            raise MachineryError(f'Apalache timeout after {timeout}s: {spec}') from err
+        out = p.stdout + p.stderr
+        res = TlcResult(ok=False, out=out, cmd=' '.join(cmd[:-1] + [f'{spec}.tla']), wall=time.time() - t0)
+        if 'EXITCODE: OK' in out and 'The outcome is: NoError' in out:
+            res.ok = True
+        elif 'The outcome is: Error' in out or 'invariant' in out and 'violated' in out:
+            res.violated = inv
+        else:
+            raise MachineryError(f'Apalache failed on {spec} (rc={p.returncode}):\n{out[-3000:]}')
+        return res
+    finally:
+        shutil.rmtree(scratch, ignore_errors=True)
+
+
 @dataclass
 class TraceVerdict:
     tid: int
